@@ -465,6 +465,27 @@ def main():
     os.makedirs(CACHE, exist_ok=True)
     digest = hashlib.sha256(json.dumps(side, sort_keys=True).encode()).hexdigest()
     side["digest"] = digest
+    # ---- primitive type bounds (C12) -----------------------------------------------------
+    from kio.static import primitive as prim
+    import datetime as _dt
+    ivs = []
+    for nm in ("i8", "i16", "i32", "i64", "u8", "u16", "u32", "u64", "uvarint", "uvarlong", "svarint", "svarlong"):
+        t = getattr(prim, nm, None)
+        if t is not None:
+            ivs.append(f"(.{nm}, {lean_int(int(t.__low__))}, {lean_int(int(t.__high__))})")
+    us = _dt.timedelta(microseconds=1)
+    bounds_src = (
+        "import Kio.Model.Phantom\n/-! generated by harness/translate.py — do not edit -/\n"
+        "namespace Kio.Generated\nopen Kio\n"
+        "def intervalBounds : List (PType × Int × Int) := [" + ", ".join(ivs) + "]\n"
+        f"def td32Min : Int := {lean_int(prim.i32_timedelta_min // us)}\n"
+        f"def td32Max : Int := {lean_int(prim.i32_timedelta_max // us)}\n"
+        f"def td64Min : Int := {lean_int(prim.i64_timedelta_min // us)}\n"
+        f"def td64Max : Int := {lean_int(prim.i64_timedelta_max // us)}\n"
+        "def bounds : Bounds := { intervals := intervalBounds, td32 := (td32Min, td32Max), td64 := (td64Min, td64Max) }\n"
+        "end Kio.Generated\n")
+    if write_if_changed(os.path.join(GEN_DIR, "Bounds.lean"), bounds_src):
+        changed.append("Bounds")
     allc = (
         "".join(f"import Kio.Generated.Classes{s}\n" for s in range(SHARDS))
         + "/-! generated by harness/translate.py — do not edit -/\nnamespace Kio.Generated\nopen Kio\n"
